@@ -201,39 +201,40 @@ func runR062(c *core.Ctx) {
 	c.Check(skip && prefix, rel, "(*missingFieldsTracker).recordMissingRequiredFields", "excluded fields are never reported; paths are prefixed with the current scope", rm.Pos(), "", fmt.Sprintf("skips excluded=%v uses scope=%v", skip, prefix))
 	// JSON null members skipped before enterMapScope
 	_, jm := mustDecl(c, rel, "(*jsonReader).ReadMap")
-	nullSkip := false
+	// every enterMapScope call and every callback invocation inside the member loop runs only when the lexer's IsNull()
+	// test was false (else branch, `continue`, early return of a helper folded into the loop …)
+	jpar := core.Parents(jm)
+	var jcbParam types.Object
+	if jm.Type.Params != nil && len(jm.Type.Params.List) == 1 && len(jm.Type.Params.List[0].Names) == 1 {
+		jcbParam = inf.Defs[jm.Type.Params.List[0].Names[0]]
+	}
+	guardedCalls, unguarded := 0, 0
 	ast.Inspect(jm.Body, func(n ast.Node) bool {
-		fs, ok := n.(*ast.ForStmt)
+		call, ok := n.(*ast.CallExpr)
 		if !ok {
 			return true
 		}
-		var nullIf, enter token.Pos
-		for _, s := range fs.Body.List {
-			if ifs, ok := s.(*ast.IfStmt); ok && nullIf == 0 {
-				if call, ok := core.Unparen(ifs.Cond).(*ast.CallExpr); ok {
-					if cf := core.Callee(inf, call); cf != nil && cf.Name() == "IsNull" {
-						for _, bs := range ifs.Body.List {
-							if b, ok := bs.(*ast.BranchStmt); ok && b.Tok == token.CONTINUE {
-								nullIf = ifs.Pos()
-							}
-						}
-					}
-				}
-			}
-			ast.Inspect(s, func(m ast.Node) bool {
-				if call, ok := m.(*ast.CallExpr); ok {
-					if cf := core.Callee(inf, call); cf != nil && cf.Name() == "enterMapScope" && enter == 0 {
-						enter = call.Pos()
-					}
-				}
-				return true
-			})
+		cf := core.Callee(inf, call)
+		isEnter := cf != nil && cf.Name() == "enterMapScope"
+		isCb := jcbParam != nil && core.ObjOf(inf, call.Fun) == jcbParam
+		if !isEnter && !isCb {
+			return true
 		}
-		if nullIf != 0 && enter != 0 && nullIf < enter {
-			nullSkip = true
+		if core.GuardedByFact(inf, jpar, core.EnclosingStmt(jpar, call), func(f core.Fact) bool {
+			t, ok := core.Unparen(f.Expr).(*ast.CallExpr)
+			if !ok || f.Val {
+				return false
+			}
+			tf := core.Callee(inf, t)
+			return tf != nil && tf.Name() == "IsNull"
+		}, nil) {
+			guardedCalls++
+		} else {
+			unguarded++
 		}
 		return true
 	})
+	nullSkip := guardedCalls >= 2 && unguarded == 0
 	c.Check(nullSkip, rel, "(*jsonReader).ReadMap", "null members are skipped before the field is scoped or decoded", jm.Pos(), "", "a JSON null member reaches the field callback (it would count as present)")
 }
 
